@@ -59,6 +59,29 @@ var builtinPure = []string{
 }
 
 func (g *Gen) call(in ssa.Instruction, c *ssa.CallCommon, rt types.Type) Val {
+	v := g.callInner(in, c, rt)
+	if g.fc != nil {
+		name := g.calleeName(c)
+		site := fmt.Sprintf("%s#%d", name, g.callCount[name])
+		for _, a := range g.fc.Asserts {
+			if siteMatches(site, a.Site) {
+				g.pendingAsserts = append(g.pendingAsserts, a)
+				if g.assertsSeen == nil {
+					g.assertsSeen = map[string]bool{}
+				}
+				g.assertsSeen[a.Name] = true
+			}
+		}
+	}
+	return v
+}
+
+// siteMatches: a call site written in a contract may omit the package qualifier of the callee.
+func siteMatches(full, spec string) bool {
+	return full == spec || strings.HasSuffix(full, "."+spec) || strings.HasSuffix(full, "/"+spec)
+}
+
+func (g *Gen) callInner(in ssa.Instruction, c *ssa.CallCommon, rt types.Type) Val {
 	name := g.calleeName(c)
 	g.callCount[name]++
 	var args []Val
@@ -78,6 +101,14 @@ func (g *Gen) call(in ssa.Instruction, c *ssa.CallCommon, rt types.Type) Val {
 	// contract of a repository function or an extern contract
 	if fc, pc, params, pkg := g.w.lookupContract(g, c, name); fc != nil {
 		return g.applyContract(fc, pc, pkg, params, args, rt, name, pos)
+	}
+	if g.fc != nil && g.fc.CallSites != nil {
+		site := fmt.Sprintf("%s#%d", name, g.callCount[name])
+		for k, cs := range g.fc.CallSites {
+			if siteMatches(site, k) {
+				return g.applyCallSite(cs, site, c, rt, pos)
+			}
+		}
 	}
 	result := func() Val {
 		if rt == nil {
@@ -157,6 +188,7 @@ func (g *Gen) builtin(name string, c *ssa.CallCommon, args []Val, rt types.Type,
 
 func (g *Gen) elemHeaps(et types.Type) (names, sorts, leafSorts []string) {
 	for _, l := range g.leaves(et) {
+		g.noteLeaf("[]"+g.typeName(et)+l.Path, l, 2)
 		names = append(names, "[]"+g.typeName(et)+l.Path)
 		sorts = append(sorts, g.heapSort(l.Sort, 2))
 		leafSorts = append(leafSorts, l.Sort)
@@ -188,6 +220,7 @@ func (g *Gen) appendOp(s, t Val, rt types.Type, pos token.Pos) Val {
 		t = g.coerce(t, rt)
 		tLen, tArr, tOff = t.Len, t.Arr, t.Off
 	}
+	g.witness(s.Len, intT)
 	n := g.define("applen", g.idxSort(), g.idxAdd(s.Len, tLen))
 	if g.mode == "int" {
 		g.assume(g.curReach, g.idxLe(n, "9223372036854775807"))
@@ -225,8 +258,8 @@ func (g *Gen) appendOp(s, t Val, rt types.Type, pos token.Pos) Val {
 			base := oldDst
 			na := base
 			for j := 0; j < k; j++ {
-				src := sel(E, tArr, g.idxAdd(tOff, g.idxConst(int64(j))))
-				na = "(store " + na + " " + g.idxAdd(g.idxAdd(resOff, s.Len), g.idxConst(int64(j))) + " " + src + ")"
+				src := sel(E, tArr, g.elemIdx(tOff, g.idxConst(int64(j))))
+				na = "(store " + na + " " + g.elemIdx(resOff, g.idxAdd(s.Len, g.idxConst(int64(j)))) + " " + src + ")"
 			}
 			if k == 0 {
 				newA = oldDst
@@ -235,29 +268,52 @@ func (g *Gen) appendOp(s, t Val, rt types.Type, pos token.Pos) Val {
 			fa := g.fresh("apparrv", elemSort)
 			q := g.qvar()
 			// fresh array: elements [0,len(s)) copied
-			g.assume(g.curReach, fmt.Sprintf("(forall ((%s %s)) (! (=> %s (= (select %s %s) (select %s %s))) :pattern ((select %s %s))))",
-				q, g.idxSort(), and(g.idxLe(z, q), g.idxLt(q, s.Len)), fa, q, oldDst, g.idxAdd(s.Off, q), fa, q))
+			g.assume(g.curReach, fmt.Sprintf("(forall ((%s %s)) (! (=> %s (= (select %s %s) (select %s %s))) :pattern ((select %s %s)) :qid app_small))",
+				q, g.idxSort(), and(g.idxLe(z, q), g.idxLt(q, s.Len)), fa, q, oldDst, g.elemIdx(s.Off, q), fa, q))
 			nb := fa
 			for j := 0; j < k; j++ {
-				src := sel(E, tArr, g.idxAdd(tOff, g.idxConst(int64(j))))
+				src := sel(E, tArr, g.elemIdx(tOff, g.idxConst(int64(j))))
 				nb = "(store " + nb + " " + g.idxAdd(s.Len, g.idxConst(int64(j))) + " " + src + ")"
 			}
 			newA = ite(fits, na, nb)
 		} else {
+			// The new content of the result's backing array is a fresh array `fa` described by index-relative
+			// axioms (k = position within the result slice). All of them rewrite to existing terms when chained
+			// (len+k-len simplifies to k), so they do not form a matching loop.
 			fa := g.fresh("apparrv", elemSort)
-			q := g.qvar()
-			var srcAt string
-			if strSrc != "" {
-				srcAt = "(sat " + strSrc + " " + g.idxSub(g.idxSub(q, resOff), s.Len) + ")"
-			} else {
-				srcAt = sel(E, tArr, g.idxAdd(tOff, g.idxSub(g.idxSub(q, resOff), s.Len)))
+			k := g.qvar()
+			is := g.idxSort()
+			wit := func(t string) string {
+				if g.mode != "int" {
+					return "true"
+				}
+				return "(" + g.witFn(intT) + " " + t + ")"
 			}
-			inNew := and(g.idxLe(g.idxAdd(resOff, s.Len), q), g.idxLt(q, g.idxAdd(resOff, n)))
-			inOld := and(g.idxLe(resOff, q), g.idxLt(q, g.idxAdd(resOff, s.Len)))
-			g.assume(g.curReach, fmt.Sprintf("(forall ((%s %s)) (! (= (select %s %s) %s) :pattern ((select %s %s))))",
-				q, g.idxSort(), fa, q,
-				ite(inNew, srcAt, ite(fits, sel(oldDst, q), ite(inOld, sel(oldDst, g.idxAdd(s.Off, g.idxSub(q, resOff))), sel(fa, q)))),
-				fa, q))
+			var tAt func(rel string) string
+			if strSrc != "" {
+				tAt = func(rel string) string { return "(sat " + strSrc + " " + rel + ")" }
+			} else {
+				tAt = func(rel string) string { return sel(E, tArr, g.elemIdx(tOff, rel)) }
+			}
+			resAt := func(rel string) string { return sel(fa, g.elemIdx(resOff, rel)) }
+			// (1) seen from the result: element k is s[k] for k < len(s), else t[k-len(s)]
+			g.assume(g.curReach, fmt.Sprintf("(forall ((%s %s)) (! (=> %s (and (= %s %s) %s)) :pattern (%s) :qid app_def))",
+				k, is, and(g.idxLe(z, k), g.idxLt(k, n)), resAt(k),
+				ite(g.idxLt(k, s.Len), sel(oldDst, g.elemIdx(s.Off, k)), tAt(g.idxSub(k, s.Len))), and(wit(k), wit(g.idxSub(k, s.Len))), resAt(k)))
+			// (2) an in-place append leaves every other position of the backing array alone
+			q := g.qvar()
+			g.assume(g.curReach, fmt.Sprintf("(forall ((%s %s)) (! (=> %s (= (select %s %s) (select %s %s))) :pattern ((select %s %s)) :qid app_frame))",
+				q, is, and(fits, or(g.idxLt(q, resOff), g.idxLe(g.idxAdd(resOff, n), q))), fa, q, oldDst, q, fa, q))
+			if strSrc == "" {
+				// (3) seen from the appended slice: t[k] sits at position len(s)+k
+				k3 := g.qvar()
+				g.assume(g.curReach, fmt.Sprintf("(forall ((%s %s)) (! (=> %s (and (= %s %s) %s)) :pattern (%s) :qid app_src))",
+					k3, is, and(g.idxLe(z, k3), g.idxLt(k3, tLen)), resAt(g.idxAdd(s.Len, k3)), tAt(k3), wit(g.idxAdd(s.Len, k3)), tAt(k3)))
+			}
+			// (4) seen from the old slice: s[k] stays at position k
+			k4 := g.qvar()
+			g.assume(g.curReach, fmt.Sprintf("(forall ((%s %s)) (! (=> %s (and (= %s %s) %s)) :pattern (%s) :qid app_old))",
+				k4, is, and(g.idxLe(z, k4), g.idxLt(k4, s.Len)), resAt(k4), sel(oldDst, g.elemIdx(s.Off, k4)), wit(k4), sel(oldDst, g.elemIdx(s.Off, k4))))
 			newA = fa
 		}
 		g.heapSet(g.heap, hn, sorts[i], "(store "+E+" "+resArr+" "+newA+")")
@@ -286,16 +342,31 @@ func (g *Gen) copyOp(dst, src Val, rt types.Type, pos token.Pos) Val {
 		E := g.heapGet(g.heap, hn, sorts[i])
 		elemSort := "(Array " + g.idxSort() + " " + leafSorts[i] + ")"
 		fa := g.fresh("copyarr", elemSort)
-		q := g.qvar()
-		var srcAt string
-		if strSrc != "" {
-			srcAt = "(sat " + strSrc + " " + g.idxSub(q, dst.Off) + ")"
-		} else {
-			srcAt = sel(E, src.Arr, g.idxAdd(src.Off, g.idxSub(q, dst.Off)))
+		is := g.idxSort()
+		wit := func(t string) string {
+			if g.mode != "int" {
+				return "true"
+			}
+			return "(" + g.witFn(intT) + " " + t + ")"
 		}
-		in := and(g.idxLe(dst.Off, q), g.idxLt(q, g.idxAdd(dst.Off, n)))
-		g.assume(g.curReach, fmt.Sprintf("(forall ((%s %s)) (! (= (select %s %s) %s) :pattern ((select %s %s))))",
-			q, g.idxSort(), fa, q, ite(in, srcAt, sel(E, dst.Arr, q)), fa, q))
+		var srcAt func(rel string) string
+		if strSrc != "" {
+			srcAt = func(rel string) string { return "(sat " + strSrc + " " + rel + ")" }
+		} else {
+			srcAt = func(rel string) string { return sel(E, src.Arr, g.elemIdx(src.Off, rel)) }
+		}
+		dstAt := func(rel string) string { return sel(fa, g.elemIdx(dst.Off, rel)) }
+		k := g.qvar()
+		g.assume(g.curReach, fmt.Sprintf("(forall ((%s %s)) (! (=> %s (and (= %s %s) %s)) :pattern (%s) :qid copy_def))",
+			k, is, and(g.idxLe(z, k), g.idxLt(k, n)), dstAt(k), srcAt(k), wit(k), dstAt(k)))
+		q := g.qvar()
+		g.assume(g.curReach, fmt.Sprintf("(forall ((%s %s)) (! (=> %s (= (select %s %s) (select (select %s %s) %s))) :pattern ((select %s %s)) :qid copy_frame))",
+			q, is, or(g.idxLt(q, dst.Off), g.idxLe(g.idxAdd(dst.Off, n), q)), fa, q, E, dst.Arr, q, fa, q))
+		if strSrc == "" {
+			k3 := g.qvar()
+			g.assume(g.curReach, fmt.Sprintf("(forall ((%s %s)) (! (=> %s (and (= %s %s) %s)) :pattern (%s) :qid copy_src))",
+				k3, is, and(g.idxLe(z, k3), g.idxLt(k3, n)), dstAt(k3), srcAt(k3), wit(k3), srcAt(k3)))
+		}
 		g.heapSet(g.heap, hn, sorts[i], "(store "+E+" "+dst.Arr+" "+fa+")")
 	}
 	if rt == nil {
@@ -683,7 +754,7 @@ func (g *Gen) applyContract(fc *FuncContract, pc *PkgContracts, pkg *types.Packa
 				// the callee's frame must be inside ours
 				g.frameCheckHeap(hn, ml, pos, name)
 				cur := g.heapGet(g.heap, hn, ml.sorts[i])
-				nh := g.fresh("H:"+hn, ml.sorts[i])
+				nh := g.freshHeap("H:", hn, ml.sorts[i])
 				if !ml.all {
 					g.emit(evAssert, "(assert (= "+nh+" (store "+cur+" "+ml.base+" (select "+nh+" "+ml.base+"))))")
 				}
@@ -706,7 +777,80 @@ func (g *Gen) applyContract(fc *FuncContract, pc *PkgContracts, pkg *types.Packa
 	}
 	post := &Env{vars: env.vars, heap: g.heap, old: pre, pkg: pkg, pc: pc, results: results}
 	for _, c := range fc.Ensures {
+		if c.Local {
+			continue // proved for the callee, deliberately not exported to callers (keeps their context small)
+		}
 		g.assume(g.curReach, g.evalBool(c.Expr, post))
+	}
+	return res
+}
+
+// applyCallSite: the effect of this one call is described (assumed) in the caller's own contract.
+func (g *Gen) applyCallSite(cs *CallSiteSpec, site string, c *ssa.CallCommon, rt types.Type, pos token.Pos) Val {
+	why := cs.Why
+	if why == "" {
+		why = "assumed"
+	}
+	g.addAssumption("effect of call " + site + " assumed as written in the contract (" + why + ")")
+	if cs.Closure != "" {
+		// the function value passed must be the named closure (whose own contract is verified separately)
+		found := false
+		for _, a := range c.Args {
+			if mc, ok := a.(*ssa.MakeClosure); ok && strings.HasSuffix(shortFuncName(mc.Fn.(*ssa.Function)), cs.Closure) {
+				found = true
+			}
+		}
+		if !found {
+			panic(contractErr("callsite %s: closure %s is not the function passed", site, cs.Closure))
+		}
+	}
+	pre := g.heap.clone()
+	env := g.localEnv()
+	env.heap = pre
+	env.pre = pre
+	for i, cl := range cs.Requires {
+		g.oblig("call-pre", site+"."+clauseName(cl, i), g.evalBool(cl.Expr, env), cl.Src, pos, true)
+	}
+	g.heap = g.heap.clone()
+	old := g.allocTerm(g.heap)
+	na := g.fresh("alloc", "Int")
+	g.assume("true", "(>= "+na+" "+old+")")
+	g.heap.m["$alloc"] = na
+	for _, m := range cs.Modifies {
+		for _, ml := range g.evalModLoc(m, env) {
+			if ml.all && len(ml.heaps) == 0 {
+				g.frameCheckAll(pos, site)
+				g.havocEverything(site)
+				continue
+			}
+			for i, hn := range ml.heaps {
+				g.frameCheckHeap(hn, ml, pos, site)
+				cur := g.heapGet(g.heap, hn, ml.sorts[i])
+				nh := g.freshHeap("H:", hn, ml.sorts[i])
+				if !ml.all {
+					g.emit(evAssert, "(assert (= "+nh+" (store "+cur+" "+ml.base+" (select "+nh+" "+ml.base+"))))")
+				}
+				g.heap.m[hn] = nh
+			}
+		}
+	}
+	var res Val
+	var results []Val
+	if rt != nil {
+		res = g.freshVal("ret:"+site, rt)
+		g.typeFacts(g.curReach, res)
+		if tup, ok := rt.(*types.Tuple); ok {
+			results = res.Fs
+			_ = tup
+		} else {
+			results = []Val{res}
+		}
+	}
+	post := g.localEnv()
+	post.pre = pre
+	post.results = results
+	for _, cl := range cs.Ensures {
+		g.assume(g.curReach, g.evalBool(cl.Expr, post))
 	}
 	return res
 }
